@@ -23,8 +23,15 @@ for name in names:
         continue
     res = {}
     try:
-        for prop in props:
-            c = subprocess.run(["python3", "fv/check.py", prop, "--tier", "quick"], cwd=V, capture_output=True, text=True)
+        # the facts of the patched tree are extracted once (first check), the remaining checks run in parallel
+        from concurrent.futures import ThreadPoolExecutor
+
+        def one(prop):
+            return prop, subprocess.run(["python3", "fv/check.py", prop, "--tier", "quick", "--no-evidence"], cwd=V, capture_output=True, text=True)
+        first = [one(props[0])]
+        with ThreadPoolExecutor(max_workers=10) as ex:
+            rest = list(ex.map(one, props[1:]))
+        for prop, c in first + rest:
             if c.returncode != 0:
                 lines = re.findall(r"^(  rule .*|ANCHOR-LOST.*|CHECKER-ERROR.*)$", c.stdout, re.M)[:3]
                 res[prop] = {"rc": c.returncode, "lines": [l[:260] for l in lines]}
